@@ -232,7 +232,96 @@ pub fn c04_large(tier: &str, rec: &Recorder, c: &mut Counters) {
     }
 }
 
+/// Long paths, beyond every block size and beyond the exact range of narrow accumulators: a path 0-1-...-(n-1) has closed
+/// forms for both centralities, so the oracle costs nothing and n can be in the thousands (the dense oracle above is cubic).
+fn long_path(n: i32, directed: bool) -> Graph<i32, ()> {
+    let mut g: Graph<i32, ()> = Graph::new(if directed { GraphSpecs::directed() } else { GraphSpecs::undirected() });
+    for i in 0..n {
+        g.add_node(Node::from_name(i));
+    }
+    for i in 0..n - 1 {
+        let _ = g.add_edge(Arc::new(Edge { u: i, v: i + 1, weight: f64::NAN, attributes: None }));
+    }
+    g
+}
+fn rel_close(a: f64, b: f64) -> bool {
+    a == b || (a - b).abs() <= 1e-9 * a.abs().max(b.abs())
+}
+const LONG_PATH_BC: i32 = 2100;
+const LONG_PATH_CC: i32 = 6000;
+pub fn long_path_stage(which: &str, rec: &Recorder, c: &mut Counters) {
+    for directed in [true, false] {
+        let kind = if directed { "directed" } else { "undirected" };
+        if which == "C05" {
+            let n = LONG_PATH_BC;
+            let g = long_path(n, directed);
+            for normalized in [false, true] {
+                c.inc("long_path_calls");
+                let case = format!("L:path{n}/{kind}|bc:w=false:norm={normalized}");
+                let mk = |clause: &str, detail: String| Violation::new(clause, "betweenness_centrality", case.clone(), format!("{kind} path 0-1-...-{} (n={n}), weighted=false normalized={normalized}\n{detail}", n - 1)).with_tags(vec!["long_path".into()]);
+                match guarded(|| betweenness::betweenness_centrality(&g, false, normalized)) {
+                    Err(pi) => rec.record(mk("no_panic", pi.msg.clone()).with_panic(pi)),
+                    Ok(Err(e)) => rec.record(mk("unexpected_error", format!("Err({:?})", e.kind))),
+                    Ok(Ok(m)) => {
+                        if m.len() != n as usize {
+                            rec.record(mk("one_entry_per_node", format!("{} entries", m.len())));
+                        }
+                        let mut bad = 0;
+                        for (k, got) in &m {
+                            let i = *k as f64;
+                            let nn = n as f64;
+                            // ordered pairs (s,t) with s < i < t; an undirected path counts each pair in both directions
+                            let ordered = i * (nn - 1.0 - i) * if directed { 1.0 } else { 2.0 };
+                            let exp = if normalized { ordered / ((nn - 1.0) * (nn - 2.0)) } else if directed { ordered } else { ordered * 0.5 };
+                            if !rel_close(*got, exp) {
+                                bad += 1;
+                                if bad <= 3 {
+                                    rec.record(mk("value", format!("betweenness[{k}] = {got}, definition gives {exp}")));
+                                }
+                            }
+                        }
+                    }
+                }
+            }
+        } else {
+            let n = LONG_PATH_CC;
+            let g = long_path(n, directed);
+            for wf in [false, true] {
+                c.inc("long_path_calls");
+                let case = format!("L:path{n}/{kind}|cc:w=false:wf={wf}");
+                let mk = |clause: &str, detail: String| Violation::new(clause, "closeness_centrality", case.clone(), format!("{kind} path 0-1-...-{} (n={n}), weighted=false wf_improved={wf}\n{detail}", n - 1)).with_tags(vec!["long_path".into()]);
+                match guarded(|| closeness::closeness_centrality(&g, false, wf)) {
+                    Err(pi) => rec.record(mk("no_panic", pi.msg.clone()).with_panic(pi)),
+                    Ok(Err(e)) => rec.record(mk("unexpected_error", format!("Err({:?})", e.kind))),
+                    Ok(Ok(m)) => {
+                        if m.len() != n as usize {
+                            rec.record(mk("one_entry_per_node", format!("{} entries", m.len())));
+                        }
+                        let mut bad = 0;
+                        for (k, got) in &m {
+                            let i = *k as f64;
+                            let nn = n as f64;
+                            // nodes that reach i: 0..i at distances i-j (directed), and also i+1..n at distances j-i (undirected)
+                            let below = i * (i + 1.0) / 2.0;
+                            let above = (nn - 1.0 - i) * (nn - i) / 2.0;
+                            let (kk, tot) = if directed { (i, below) } else { (nn - 1.0, below + above) };
+                            let exp = if kk == 0.0 { 0.0 } else { (kk / tot) * if wf { kk / (nn - 1.0) } else { 1.0 } };
+                            if !rel_close(*got, exp) {
+                                bad += 1;
+                                if bad <= 3 {
+                                    rec.record(mk("value", format!("closeness[{k}] = {got}, definition gives {exp}")));
+                                }
+                            }
+                        }
+                    }
+                }
+            }
+        }
+    }
+}
+
 pub fn c05_large(tier: &str, rec: &Recorder, c: &mut Counters) {
+    long_path_stage("C05", rec, c);
     for inp in inputs_counting(tier) {
         for weighted in if inp.weighted { vec![true, false] } else { vec![false] } {
             let d = dense_of(&inp.g, weighted);
@@ -285,6 +374,7 @@ pub fn c05_large(tier: &str, rec: &Recorder, c: &mut Counters) {
 }
 
 pub fn c06_large(tier: &str, rec: &Recorder, c: &mut Counters) {
+    long_path_stage("C06", rec, c);
     for inp in inputs_counting(tier) {
         for weighted in if inp.weighted { vec![true, false] } else { vec![false] } {
             let d = dense_of(&inp.g, weighted);
